@@ -173,13 +173,14 @@ class DensityMatrix(StateRepresentationBase):
             if measurement_determinism == "probabilistic":
                 outcome = numpy.random.choice([0, 1], p=probs / np.sum(probs))
             elif measurement_determinism == 1:
-                if probs[1] > 0:
+                # rounding noise (1e-17 instead of 0) must not select an impossible outcome
+                if probs[1] > 0 and not np.isclose(probs[1], 0.0):
                     outcome = 1
                 else:
                     outcome = 0
 
             elif measurement_determinism == 0:
-                if probs[1] < 1:
+                if probs[0] > 0 and not np.isclose(probs[0], 0.0):
                     outcome = 0
                 else:
                     outcome = 1
